@@ -5,10 +5,10 @@
 par=${1:-3}
 mkdir -p /tmp/reseed; : > /tmp/reseed/results.txt
 cd /verif
-ids=$(ls seeded | sed 's/-.*//' | sort -u)
+ids=$(ls -d seeded/*/ | xargs -n1 basename | sed 's/-.*//' | sort -u)
 run_id() {
   id=$1
-  for d in seeded/$id-*; do
+  for d in seeded/$id-*/; do d=${d%/}
     n=$(basename $d)
     out=$(tools/mutant.sh $id quick /verif/$d/patch.diff 2>&1)
     rc=$?
